@@ -72,3 +72,6 @@ func newUnkownArgumentError(cmd string, arg string) error {
 func newInvalidArgumentError(cmd string, arg string, err error) error {
 	return fmt.Errorf(errorInvalidCommandArgument, cmd, ErrInvalid, arg, err.Error())
 }
+
+// ErrInvalidExpireTime is returned when an expiry does not fit into a duration.
+var ErrInvalidExpireTime = errors.New("invalid expire time")
